@@ -174,7 +174,8 @@ theorem keptVal_enc (p : Params) (a : Attr) (hv : WFVal p a.val) : keptVal p (ke
   simp [keptVal, keptOf, tlvOf, hp, hdv]
 
 /-- One attribute: what the model relays for it is what the reference reports for it. -/
-theorem relay_one (p : Params) (as : List Attr) (hmf : MergeFree p as) (a : Attr) (ha : a ∈ as) (hwf : WFAttr p a) :
+theorem relay_one (p : Params) (as : List Attr) (hmf : MergeFree p as) (a : Attr) (ha : a ∈ as) (hwf : WFAttr p a)
+    (hna : ∀ c raw, a.val = .unknown c raw → c ≠ aigpCode) :
     (keptOfAttr p a).bind (fun k =>
         if ((!p.asn4 || k.code != 17) && (k.code != 14 && k.code != 15)) then keptVal p k else none) =
       reportVal p as a := by
@@ -191,7 +192,8 @@ theorem relay_one (p : Params) (as : List Attr) (hmf : MergeFree p as) (a : Attr
     simp only [AttrVal.code, encVal] at hdv
     have hp : ({ p with asn4 := p.asn4 || false } : Params) = p := by cases p; simp
     cases ht : a.flags.trans
-    · simp [keptOfAttr, hval, ht, reportVal]
+    · have h26 := hna c raw hval
+      simp [keptOfAttr, hval, ht, reportVal, h26]
     · have hc : c ≠ 17 ∧ c ≠ 14 ∧ c ≠ 15 ∧ c ≠ 2 := by omega
       simp [keptOfAttr, hval, ht, reportVal, hc, keptVal, hp, hdv]
   | mpReach afi safi nh ns => simp [keptOfAttr, hval, reportVal, keptOf, tlvOf, AttrVal.code]
@@ -552,14 +554,15 @@ theorem filterMap_congr_mem {α β : Type} {f g : α → Option β} : ∀ {l : L
     simp [List.filterMap_cons, h a (by simp), ih]
 
 /-- The relayed attribute values, in wire order, are the reference's reported values before sorting. -/
-theorem relayed_enc (xp : XP) (u : UpdateSem) (ha : ∀ a ∈ u.attrs, WFAttr xp.p a) (hmf : MergeFree xp.p u.attrs) :
+theorem relayed_enc (xp : XP) (u : UpdateSem) (ha : ∀ a ∈ u.attrs, WFAttr xp.p a) (hmf : MergeFree xp.p u.attrs)
+    (hna : ∀ a ∈ u.attrs, ∀ c raw, a.val = .unknown c raw → c ≠ aigpCode) :
     relayed xp.p (partsOf xp u).st = u.attrs.filterMap (reportVal xp.p u.attrs) := by
   unfold relayed reportedAttrs partsOf
   simp only [List.filter_filter]
   rw [filterMap_filter_filterMap]
   apply filterMap_congr_mem
   intro a ham
-  have := relay_one xp.p u.attrs hmf a ham (ha a ham)
+  have := relay_one xp.p u.attrs hmf a ham (ha a ham) (hna a ham)
   rw [← this]
   cases hk : keptOfAttr xp.p a with
   | none => rfl
